@@ -98,6 +98,31 @@ func (a *wAttach) update(w *wWorld, st *wStep) {
 		a.att = map[int]map[string]wAtt{}
 		return
 	}
+	if st.Op.K == "reload" && !st.Skipped {
+		// every attached session left and subscribed again: it stays attached iff the second {sub}
+		// succeeded and the user's stored effective mode still includes J
+		snap := mem.A.Snapshot()
+		for _, sess := range a.sessionsOn(st.Route) {
+			at := a.att[sess][st.Route]
+			row := st.Route
+			if at.Chan {
+				row = types.GrpToChn(st.Route)
+			}
+			var last *MsgServerCtrl
+			for _, f := range st.Frames[sess] {
+				if f.Ctrl != nil && f.Ctrl.Id != "" {
+					last = f.Ctrl
+				}
+			}
+			if last == nil {
+				continue // this session took no part in the reload
+			}
+			m, live := effective(snap, row, w.users[at.User].uid)
+			if last.Code >= 400 || !live || !m.IsJoiner() {
+				a.drop(sess, st.Route)
+			}
+		}
+	}
 	for _, d := range st.Died {
 		a.dropSession(d)
 	}
@@ -122,14 +147,23 @@ func (a *wAttach) update(w *wWorld, st *wStep) {
 				// Subscribed without the J permission: not attached.
 				continue
 			}
+			isChan := strings.HasPrefix(name, "chn")
 			if s.User >= 0 && s.Route != "sys" {
+				snap := mem.A.Snapshot()
+				if !isChan && strings.HasPrefix(route, "grp") {
+					// A user whose only subscription is a channel reader's one stays a channel reader
+					// whichever spelling the session used to attach.
+					_, full := effective(snap, route, w.users[s.User].uid)
+					_, rdr := effective(snap, types.GrpToChn(route), w.users[s.User].uid)
+					isChan = !full && rdr
+				}
 				// A 2xx reply that reports no mode change: the session is attached iff the user's stored
 				// effective mode includes J (a self-banned user repeating {sub} is acknowledged, not attached).
 				row := route
-				if strings.HasPrefix(name, "chn") {
-					row = name
+				if isChan {
+					row = types.GrpToChn(route)
 				}
-				if m, ok := effective(mem.A.Snapshot(), row, w.users[s.User].uid); ok && !m.IsJoiner() {
+				if m, ok := effective(snap, row, w.users[s.User].uid); ok && !m.IsJoiner() {
 					continue
 				}
 			}
@@ -137,7 +171,7 @@ func (a *wAttach) update(w *wWorld, st *wStep) {
 				a.att[s.Sess] = map[string]wAtt{}
 			}
 			if _, already := a.att[s.Sess][route]; !already {
-				a.att[s.Sess][route] = wAtt{User: s.User, Chan: strings.HasPrefix(name, "chn"), Name: name}
+				a.att[s.Sess][route] = wAtt{User: s.User, Chan: isChan, Name: name}
 			}
 		case "leave":
 			if ok {
@@ -164,9 +198,19 @@ func (a *wAttach) update(w *wWorld, st *wStep) {
 			}
 			if f.Pres != nil && f.Pres.What == "gone" {
 				// topic deleted or subscription removed: sessions attached to it are detached
+				// The notice arrives on some 'me' topic the session is attached to (its own, or another
+				// user's when a root session attached on behalf of that user): it concerns the attachment
+				// only if that attachment's user has really lost the subscription.
+				snap := mem.A.Snapshot()
 				for route, at := range a.att[sess] {
 					if f.Pres.Topic == "me" && (w.routeOfName(f.Pres.Src, at.User) == route) {
-						a.drop(sess, route)
+						row := route
+						if at.Chan {
+							row = types.GrpToChn(route)
+						}
+						if _, live := effective(snap, row, w.users[at.User].uid); !live {
+							a.drop(sess, route)
+						}
 					}
 				}
 			}
